@@ -366,7 +366,7 @@ def _plain(s):
 def gen_dict(rng, tier):
     """valid JSON serializations and their faults; value-level faults go to DictDecoder.decode,
     byte-level faults to JsonParser.from_bytes (whose json.load outcome is decided with the stdlib)"""
-    n_uni = n_cases(tier, 16, 60)
+    n_uni = n_cases(tier, 13, 60)
     for _ in range(n_uni):
         u, desc, ctx = new_universe(rng, FEATURES_JSON)
         for _ in range(2):
@@ -483,6 +483,53 @@ def cmp_doc_xinclude(mo, io, a):
     return mo == io
 
 
+# =============================================================================== (iv) the bytes converter
+def gen_conv_bytes(rng, tier):
+    """BytesConverter.deserialize vs `Fault/Bytes.lean`: valid base16/base64 strings, every single-character corruption of
+    them (ASCII and non-ASCII, whitespace of all kinds), whole-value replacements, random strings; base16 is decided by the
+    model itself, for base64 the verdict of the stdlib call on the whitespace-free string is an input"""
+    import base64
+    import binascii
+    import re
+
+    import c15_typed as T
+
+    seeds = ["", "CAFE", "00ff10", "cafe", "A", "ABC", "eHNkYXRh", "eHNkYXRhIQ==", "eHM=", "AAAA=", "AA==AAAA", "=AAA"]
+    values = []
+    for v in seeds:
+        values.append(v)
+        values.extend(b for _, b in T.corruptions(v))
+        values.extend([" " + v, v + "\n", " ".join(v), v[:1] + " " + v[1:], v + " "])
+    for _ in range(n_cases(tier, 150, 3000)):
+        values.append("".join(rng.choice("0123456789abcdefABCDEFgG=+/ \t\né名٣Zz_-") for _ in range(rng.randint(0, 9))))
+    seen = set()
+    for v in values:
+        if v in seen or any(0xD800 <= ord(c) <= 0xDFFF for c in v):
+            continue
+        seen.add(v)
+        stripped = re.sub(r"\s+", "", v)
+        try:
+            codec = {"bytes": list(base64.b64decode(stripped, validate=True))}
+        except binascii.Error:
+            codec = "binascii"
+        except ValueError:
+            codec = "value"
+        for fmt in ("base16", "base64") + (("hex",) if rng.random() < 0.05 else ()):
+            yield {"fmt": fmt, "value": v, "codec": codec, "_kind": fmt + ("/ascii" if v.isascii() else "/non-ascii")}
+
+
+def impl_conv_bytes(a):
+    from xsdata.exceptions import ConverterError
+    from xsdata.formats.converter import converter
+
+    try:
+        return {"ok": list(converter.deserialize(a["value"], [bytes], format=a["fmt"]))}
+    except ConverterError:
+        return {"err": "ConverterError"}
+    except Exception as e:  # noqa: BLE001
+        return {"err": "LEAK:" + type(e).__name__}
+
+
 # =============================================================================== supported region of the models
 REGION: dict = {}
 
@@ -539,6 +586,8 @@ CORRS = [
          describe="XmlParser(LxmlEventHandler).from_bytes on byte-level faults: model outcome on well-formed input, no leak otherwise"),
     Corr("fault.document.xinclude", with_region("fault.document.xinclude", gen_doc_xinclude), impl_doc_xinclude, compare=cmp_doc_xinclude, classify=region_classify(classify_outcome),
          describe="XmlParser(process_xinclude=True) with both handlers: inclusion is transparent (model outcome on the expanded tree), broken inclusions end in documented errors"),
+    Corr("conv.bytes", gen_conv_bytes, impl_conv_bytes, classify=classify_outcome,
+         describe="BytesConverter.deserialize (xs:hexBinary / xs:base64Binary) vs Fault/Bytes.lean on valid values and every single-character corruption, non-ASCII included"),
     Corr("dict.decode", with_region("dict.decode", gen_dict), impl_dict, compare=cmp_dict, classify=region_classify(classify_outcome),
          describe="DictDecoder.decode / JsonParser.from_bytes outcome class vs model on value-level and byte-level JSON faults"),
 ]
@@ -849,7 +898,65 @@ def check_xinclude(a):
     return None
 
 
+# ------------------------------------------------------------------ typed values of every converter
+def gen_oracle_typed(rng, tier):
+    import c15_typed as T
+
+    for a in T.cases(rng, tier):
+        if T.expressible(a):
+            yield a
+
+
+def check_typed(a):
+    """a corrupted value of ANY primitive type (bytes base16/base64, float, Decimal, dates, durations, periods,
+    enums, QName, token lists, xs:* behind xsi:type) in a well-formed document: an instance of the requested class
+    or ParserError / ConverterError / XmlContextError, through every entry point"""
+    import c15_typed as T
+    from xsdata.exceptions import ConverterError, ParserError, XmlContextError
+
+    Rich = T.rich_class()
+    try:
+        with F.time_cap(F.CAP_S):
+            obj = T.run(a)
+    except F.Hang:
+        return f"{a['entry']}: no answer within {F.CAP_S:.0f} s for {a['field']} ({a['label']})"
+    except (ParserError, ConverterError, XmlContextError):
+        return None
+    except BaseException as e:  # noqa: BLE001
+        bad = a["raw"] if a.get("raw") is not None else a.get("anyf", [None, a["values"].get(a["field"])])[1]
+        return f"{a['entry']} (fail_on_converter_warnings={a.get('strict')}): {type(e).__name__} escaped for field {a['field']} = {bad!r}: {str(e)[:80]}"
+    if not isinstance(obj, Rich):
+        return f"{a['entry']}: returned {type(obj).__name__} instead of an instance of the requested class"
+    return None
+
+
+def covered_typed(a, msg):
+    """C15-standard-node-wrapper: `StandardNode.bind` hands a value that did NOT convert (lenient config: the raw string
+    stays, or "" for an empty element) to the bytes wrapper of xs:hexBinary / xs:base64Binary -> TypeError
+    ('string argument without an encoding').  Exactly: the anyType field, one of these two datatypes behind xsi:type,
+    fail_on_converter_warnings off, a value the codec rejects, and that TypeError."""
+    import base64
+    import binascii
+
+    if a.get("field") != "anyf" or not a.get("anyf") or not a["entry"].startswith("xml"):
+        return None
+    tname, value = a["anyf"]
+    if tname not in ("hexBinary", "base64Binary") or "TypeError escaped" not in msg or "string argument without an encoding" not in msg:
+        return None
+    if value == "":
+        return "C15-standard-node-wrapper"  # the empty element: `obj = ""` goes to the wrapper whatever the config
+    if a.get("strict"):
+        return None  # with fail_on_converter_warnings a value that does not convert is a ParserError before the wrapper
+    try:
+        v = value.strip() if False else value
+        (binascii.unhexlify if tname == "hexBinary" else (lambda x: base64.b64decode(x, validate=True)))(v)
+    except ValueError:  # binascii.Error is a ValueError: the codec rejects the value
+        return "C15-standard-node-wrapper"
+    return None
+
+
 ORACLES = [
+    Oracle("c15.typed_values", gen_oracle_typed, check_typed, covered=covered_typed),
     Oracle("c15.tree", gen_oracle_tree, check_tree, from_ops=("bind.parse_u",)),
     Oracle("c15.xml_bytes", gen_oracle_xml, check_xml_bytes, covered=covered_xml,
            from_ops=("fault.document", "fault.document.lxml"), adapt=adapt_xml),
@@ -907,7 +1014,24 @@ def _xml_version_finding():
     return isinstance(r, Doc), "accepted: " + repr(r)[:60]
 
 
+def _standard_wrapper_finding():
+    import warnings
+
+    import c15_typed as T
+
+    try:
+        with warnings.catch_warnings():
+            warnings.simplefilter("ignore")
+            T.run({"entry": "xml-native", "values": {}, "anyf": ["hexBinary", "zz"], "strict": False})
+    except TypeError as e:
+        return "without an encoding" in str(e), f"TypeError: {e}"
+    except Exception as e:  # noqa: BLE001
+        return False, f"now {type(e).__name__}"
+    return False, "no exception"
+
+
 FINDINGS = {
+    "C15-standard-node-wrapper": _standard_wrapper_finding,
     "C15-xml-version-number": _xml_version_finding,
 }
 
